@@ -26,6 +26,9 @@ func main() {
 	case "dumpprogs":
 		os.MkdirAll("/tmp/gp", 0755)
 		dumpProgs(20)
+	case "dumppool":
+		os.MkdirAll("/tmp/gp", 0755)
+		dumpPool(30)
 	case "dumpsrc": // print the materialised source and comment-free form of a C19 replay file
 		raw, _ := os.ReadFile(os.Args[2])
 		var rf ReplayFile
